@@ -80,34 +80,43 @@ theorem create_virtual_noop (cfg : Cfg) (w : World) (st : State) (p : Bytes)
 /-- With writing enabled, a WRITE_FILE appends exactly the payload to the file being written
     (whatever its previous content) and reports exactly the payload's length. -/
 theorem write_appends (cfg : Cfg) (h : cfg.allowWrite = true) (w : World) (st : State) (ino : Nat) (f : Inode)
-    (hwo : st.wo = some ⟨ino⟩) (hf : w.inode? ino = some f) (n : Nat) (pl : Bytes) :
+    (hwo : st.wo = some ⟨ino⟩) (hf : w.inode? ino = some f) (n : Nat) (pl : Bytes) (hn : n ≤ maxAnnounce) :
     ((step cfg w st (.writeFile n pl)).1.inode? ino).map (·.content.all) = some (f.content.all ++ pl)
     ∧ (step cfg w st (.writeFile n pl)).2.2.bytes = writeFileResult (some pl.length) := by
   have hlt := Proof.World.inode?_some_lt w ino f hf
-  simp [step, h, hwo, hf, Proof.World.inode?_setInode _ _ _ hlt, Proof.World.ofBytes_all]
+  have hn' : ¬ (n > maxAnnounce) := by omega
+  simp [step, h, hwo, hf, hn', Proof.World.inode?_setInode _ _ _ hlt, Proof.World.ofBytes_all]
+
+/-- A payload whose length the 32-bit answer could not report (2 GiB or more) is refused as a whole:
+    nothing is written and the failure code is answered, in either mode. -/
+theorem write_too_big_refused (cfg : Cfg) (w : World) (st : State) (n : Nat) (pl : Bytes) (hn : n > maxAnnounce) :
+    (step cfg w st (.writeFile n pl)).1 = w ∧ (step cfg w st (.writeFile n pl)).2.1 = st ∧
+      (step cfg w st (.writeFile n pl)).2.2.bytes = writeFileResult none := by
+  simp [step, hn]
 
 /-- Upload exactness: after CREATE opened inode `ino` empty, any sequence of WRITE_FILE payloads
     (any chunking, including empty chunks) leaves exactly their concatenation in the file. -/
 theorem upload_exact (cfg : Cfg) (h : cfg.allowWrite = true) (ino : Nat) :
     ∀ (chunks : List Bytes) (w : World) (st : State) (f : Inode),
+      (∀ pl ∈ chunks, pl.length ≤ maxAnnounce) →
       st.wo = some ⟨ino⟩ → w.inode? ino = some f →
       let fin := chunks.foldl (fun (ws : World × State) pl =>
         let r := step cfg ws.1 ws.2 (.writeFile pl.length pl); (r.1, r.2.1)) (w, st)
       (fin.1.inode? ino).map (·.content.all) = some (f.content.all ++ chunks.flatten) := by
   intro chunks
   induction chunks with
-  | nil => intro w st f _ hf; simp [hf]
+  | nil => intro w st f _ _ hf; simp [hf]
   | cons pl rest ih =>
-    intro w st f hwo hf
+    intro w st f hsz hwo hf
     simp only [List.foldl_cons, List.flatten_cons]
-    have hstep := write_appends cfg h w st ino f hwo hf pl.length pl
+    have hpl : ¬ (pl.length > maxAnnounce) := by have := hsz pl (by simp); omega
     have hlt := Proof.World.inode?_some_lt w ino f hf
-    have hst : (step cfg w st (.writeFile pl.length pl)).2.1 = st := by simp [step, h, hwo, hf]
+    have hst : (step cfg w st (.writeFile pl.length pl)).2.1 = st := by simp [step, h, hwo, hf, hpl]
     have hino : (step cfg w st (.writeFile pl.length pl)).1.inode? ino
         = some ⟨Content.ofBytes (f.content.all ++ pl), if pl.isEmpty then f.mtime else recent⟩ := by
-      simp [step, h, hwo, hf, Proof.World.inode?_setInode _ _ _ hlt]
+      simp [step, h, hwo, hf, hpl, Proof.World.inode?_setInode _ _ _ hlt]
     have := ih (step cfg w st (.writeFile pl.length pl)).1 (step cfg w st (.writeFile pl.length pl)).2.1 _
-      (by rw [hst]; exact hwo) hino
+      (fun q hq => hsz q (by simp [hq])) (by rw [hst]; exact hwo) hino
     simp only [Proof.World.ofBytes_all, List.append_assoc] at this
     exact this
 
